@@ -129,7 +129,7 @@ func buildC18(n int, iss []int, variant int) World {
 func TestC18(t *testing.T) {
 	r := core.Start(t, "C18")
 	defer r.Finish()
-	r.Rule = "(a) exhaustive: every issuer function on n <= 3 (quick) / n <= 4 (thorough) labelled entities, each entity having no issuer, any entity including itself, or an undefined name ((n+2)^n graphs), laid out over nested directories with config suffixes in mixed letter case and explicit or file-derived aliases (two layout variants per graph). (b) sampled: up to 6 entities with alias collisions (explicit/explicit, explicit/file name, file name/file name in different directories, same stem with different suffix in one directory), cycles hanging off valid trees, and bystander files (other suffixes, binary junk / lists / version-less YAML under config suffixes, stray PEM). Backends: in-memory, gopki MapFs, NativeFs. Oracle: graph analysis in the harness (duplicate alias, dangling issuer, cycle incl. self-loop) => the run must fail and the directory snapshot is unchanged; otherwise the run succeeds, exactly the files '<config path without extension>.pem' appear, issuer DNs match the configured issuer's subject, everything else is byte-identical. Non-trivial = defect hanging off an otherwise valid tree, or a valid forest spread over >= 2 directories; distinct by rendered tree."
+	r.Rule = "(a) exhaustive: every issuer function on n <= 3 (quick) / n <= 5 (thorough) labelled entities, each entity having no issuer, any entity including itself, or an undefined name ((n+2)^n graphs), laid out over nested directories with config suffixes in mixed letter case and explicit or file-derived aliases (two layout variants per graph). (b) sampled: up to 6 entities with alias collisions (explicit/explicit, explicit/file name, file name/file name in different directories, same stem with different suffix in one directory), cycles hanging off valid trees, and bystander files (other suffixes, binary junk / lists / version-less YAML under config suffixes, stray PEM). Backends: in-memory, gopki MapFs, NativeFs. Oracle: graph analysis in the harness (duplicate alias, dangling issuer, cycle incl. self-loop) => the run must fail and the directory snapshot is unchanged; otherwise the run succeeds, exactly the files '<config path without extension>.pem' appear, issuer DNs match the configured issuer's subject, everything else is byte-identical. Non-trivial = defect hanging off an otherwise valid tree, or a valid forest spread over >= 2 directories; distinct by rendered tree."
 	r.Assumptions = []string{"two configs with the same stem in one directory but different explicit aliases are not generated (both map to one .pem; the property does not say who wins)"}
 	wrap := func(c c18Case) *core.Failure {
 		f, class := checkC18(c)
@@ -152,7 +152,7 @@ func TestC18(t *testing.T) {
 	if r.Replays() {
 		return
 	}
-	maxN := r.Pick(3, 4)
+	maxN := r.Pick(3, 5)
 	idx := 0
 	r.Exhaustive = true
 	for n := 1; n <= maxN; n++ {
@@ -253,5 +253,5 @@ func TestC18(t *testing.T) {
 		}
 		return c
 	}
-	core.Rapid(r, "graph", r.Pick(1500, 40000), gen, wrap)
+	core.Rapid(r, "graph", r.Pick(1500, 300000), gen, wrap)
 }
